@@ -94,7 +94,9 @@ def handleC03 (inp impl : Json) : CaseResult :=
       | .ok d => mkObj [("outcome", "ok"), ("digest", hexStr d)]
       | _ => mkObj [("outcome", "err")],
     spec := ok,
-    why := if ok then "" else if !okImpl then "hash-failed-in-domain"
+    why := if ok then "" else
+      if jstr impl "outcome" == "signed-digest-differs-from-hash-function" then "signed-digest-differs-from-hash-function"
+      else if !okImpl then "hash-failed-in-domain"
       else if implDigest != spec then "digest-differs-from-eip712"
       else if hexStr spec != api then "lean-eip712-differs-from-apitypes" else "signature-form" }
 
